@@ -110,9 +110,47 @@ def check_converted(r, src, out, cls, src_ns, tgt_ns, src_dt, want_dt, route, ca
         r.violation(f"{sig}/parameters", out.parameters, case)
 
 
+def staged_conversions(r, cls, src_ns):
+    """A set that is filled in stages (as the samplers do: coordinates and log q first, prior and likelihood assigned later)
+    and converted in between: every conversion reflects the set as it is at that moment."""
+    from aspire import samples as S
+
+    if cls != "Samples":
+        return
+    xp = get_xp(src_ns)
+    for dt, tgt_ns in itertools.product(("float32", "float64"), NS):
+        case = {"class": cls, "src": src_ns, "tgt": tgt_ns, "src_dtype": dt, "staged": True}
+        r.case(explorer.digest(case), nontrivial=True)
+        try:
+            i = np.arange(3, dtype=np.float64)
+            s = S.Samples(x=xp.asarray(np.stack([0.1 * (i + 1), 1.0 / 3.0 + i], axis=1)), log_q=xp.asarray(-0.9 - 0.2 * i), xp=xp,
+                          dtype=get_dtype(src_ns, dt), parameters=["a", "b"])
+            first = s.to_numpy() if tgt_ns == "numpy" else s.to_namespace(get_xp(tgt_ns))
+            s.log_prior = s.array_to_namespace(xp.asarray(-1.1 + 0.01 * i))
+            s.log_likelihood = s.array_to_namespace(xp.asarray(-0.7 - 0.3 * i))
+            s.compute_weights()
+            second = s.to_numpy() if tgt_ns == "numpy" else s.to_namespace(get_xp(tgt_ns))
+        except Exception as e:
+            from env import exc_site
+
+            r.violation(f"C15/staged/raises/{type(e).__name__}/{exc_site(e)}/{src_ns}->{tgt_ns}", repr(e)[:200], case)
+            continue
+        if first.log_prior is not None or first.log_likelihood is not None:
+            r.violation(f"C15/staged/first-conversion-has-later-fields/{src_ns}->{tgt_ns}", None, case)
+        for f in ("log_prior", "log_likelihood", "log_w", "log_evidence"):
+            a, b = getattr(s, f), getattr(second, f)
+            if b is None:
+                r.violation(f"C15/staged/field-lost-in-later-conversion/{f}", {"route": "to_numpy" if tgt_ns == "numpy" else "to_namespace"}, case)
+                break
+            if abs(float(np.sum(tonp(a).astype(np.float64))) - float(np.sum(tonp(b).astype(np.float64)))) > 1e-5:
+                r.violation(f"C15/staged/values-changed/{f}", None, case)
+                break
+
+
 def run_conversions(arg):
     cls, src_ns = arg
     r = Report()
+    staged_conversions(r, cls, src_ns)
     for tgt_ns, src_dt, fs in itertools.product(NS, ("float32", "float64"), FIELDSETS):
         for spelling in (None, "float32", "float64", "native:float32", "native:float64"):
             for route in ("to_namespace", "to_numpy", "from_samples"):
